@@ -3,5 +3,5 @@
 REV="${1:-HEAD}"
 WT="$(mktemp -d /tmp/vfsuite_XXXXXX)"; rmdir "$WT"
 git -C /repo worktree add --detach -q "$WT" "$REV" || exit 2
-( cd "$WT" && env -u CHUK_MCP_VERIF PYTHONPATH="$WT/src" /venv/bin/python -m pytest -q -p no:cacheprovider --timeout=900 -q 2>&1 | tail -3 )
+( cd "$WT" && env -u CHUK_MCP_VERIF PYTHONPATH="$WT/src" /venv/bin/python -m pytest -q -p no:cacheprovider --timeout=900 2>&1 | tail -2 )
 git -C /repo worktree remove --force "$WT"; rm -rf "$WT"
